@@ -242,7 +242,9 @@ def theorem_names(thm_file):
         if m and ns and ns[-1] == m.group(1):
             ns.pop()
             continue
-        m = re.match(r"\s*(?:@\[[^\]]*\]\s*)?(?:private\s+|protected\s+)?theorem\s+(\S+)", line)
+        # private helper lemmas are not obligations of their own: the audit of the public theorems that use them
+        # covers their axioms
+        m = re.match(r"\s*(?:@\[[^\]]*\]\s*)?(?:protected\s+)?theorem\s+(\S+)", line)
         if m:
             names.append(".".join(ns + [m.group(1)]))
     return names
